@@ -128,6 +128,24 @@ def _truncation(prog, rep):
             if scalar or recurses:
                 rep.ob("R11.2", f"{fi.name}[{kinds[18:-1]}]", True, "scalar broadcast / delegated after conversion: sized by construction", loc=f"{fi.module.rel}:{node.lineno}", detail="arm", trivial=True)
                 continue
+            # the size that is compared must be the size of the operand whose elements are paired: `len(right)`,
+            # `right.size`, `right.shape` -- or a helper that returns exactly that for its argument
+            for st in body:
+                if isinstance(st, ast.Assign) and isinstance(st.value, ast.Call) and isinstance(st.value.func, ast.Name):
+                    helper = prog.functions.get(f"{fi.module.name}:{st.value.func.id}")
+                    if helper is not None and ("size" in helper.name or "len" in helper.name or "shape" in helper.name):
+                        hp = helper.node.args.args[0].arg
+                        bad = []
+                        for r in [x for x in ast.walk(helper.node) if isinstance(x, ast.Return) and x.value is not None]:
+                            vals = [r.value] if not isinstance(r.value, ast.IfExp) else [r.value.body, r.value.orelse]
+                            for v in vals:
+                                t = src(v)
+                                if t not in (f"{hp}.size", f"len({hp})", f"len({hp}._variables)", f"len({hp}._expressions)", f"{hp}.shape"):
+                                    bad.append(t)
+                        rep.ob("R11.2", f"{fi.name}[{kinds[18:-1]}]", not bad,
+                               f"size helper {helper.name} returns the operand's own size" if not bad else
+                               f"the size compared with the left operand comes from {helper.name}(), which returns `{bad[0][:50]}` -- not the number of elements of the operand that is then paired element by element (e.g. a matrix-vector product has as many elements as the matrix has rows, not as its inner vector)",
+                               loc=f"{helper.module.rel}:{helper.node.lineno}", detail=f"size-helper:{helper.name}")
             first_if = [st for st in body if isinstance(st, ast.If)]
             guarded = any(_raises_size_error(st.body) and any(k in src(st.test) for k in ("len(", ".size", ".shape", ".ndim")) and "!=" in src(st.test) for st in first_if)
             # the size test must compare with the left operand's size
@@ -247,6 +265,20 @@ def _identity(prog, rep):
                                loc=f"{fi.module.rel}:{n.lineno}", detail="vector-identity-by-name")
     rep.ob("R11.4", "package", True, f"{n_cmp} name comparison(s) between vector containers found in optyx.core", detail="inventory", trivial=True)
     dot = prog.cls("VectorVariable").methods["dot"]
+    for n in walk_local(dot.node):
+        if isinstance(n, ast.If) and any(isinstance(r, ast.Return) and isinstance(r.value, ast.Call) and dotted(r.value.func) == "QuadraticForm" for r in ast.walk(n)):
+            from ..astutil import disjuncts
+            for dj in disjuncts(n.test):
+                t = src(dj)
+                ident = isinstance(dj, ast.Compare) and isinstance(dj.ops[0], ast.Is)
+                ordered = isinstance(dj, ast.Compare) and isinstance(dj.ops[0], ast.Eq) and src(dj.left).endswith("._variables") and src(dj.comparators[0]).endswith("._variables")
+                is_type_guard = t.startswith("isinstance(")
+                if is_type_guard:
+                    continue
+                rep.ob("R11.4", "VectorVariable.dot", ident or ordered,
+                       f"`{t[:60]}` identifies the same vector by identity / ordered variable list" if ident or ordered else
+                       f"the QuadraticForm rewrite is taken under `{t[:70]}`, which does not establish that both operands list the same variables in the same order (a reversed or permuted view would be rewritten to x'Ax although the product is u'Av)",
+                       loc=f"{dot.module.rel}:{n.lineno}", detail=f"rewrite-guard:{'identity' if ident else 'ordered-list' if ordered else t[:30]}")
     s = src(dot.node)
     ok = "other.vector is self" in s
     rep.pin("index maps of views", "R11.4", "VectorVariable.dot", ok, "x.dot(A @ x) -> QuadraticForm is taken for the identical vector object" if ok else "the quadratic-form rewrite is not guarded by object identity", loc=dot.loc, detail="rewrite-identity")
